@@ -451,9 +451,11 @@ class DictList(list):
             def key(i):
                 return i.id
 
-        list.sort(self, key=key, reverse=reverse)
-
-        self._generate_index()
+        try:
+            list.sort(self, key=key, reverse=reverse)
+        finally:
+            # a key function that raises leaves the list in an arbitrary order
+            self._generate_index()
 
     def __getitem__(
         self, i: Union[int, slice, Iterable, Object, "DictList"]
